@@ -100,6 +100,7 @@ BUILTINS = {
     # float operations: abstract (structure FloatOps), see the header of the generated file
     ("mod", ("float", "float")): ("float", "(O.fmod {0} {1})", ["!(O.isZero {1})"], []),
     ("add", ("float", "float")): ("float", "(O.add {0} {1})", [], []),
+    ("sub", ("float", "float")): ("float", "(O.sub {0} {1})", [], []),
     # int -> float conversion is exact below 2^53 (beyond that it rounds, far beyond it is an error value)
     ("to_float", ("int",)): ("float", "(O.ofInt {0})", [],
                              ["decide ({0} < 9007199254740992)", "decide (-9007199254740992 < {0})"]),
@@ -136,6 +137,7 @@ laws as hypotheses), the driver instantiates it with exact binary fixed point -/
 structure FloatOps (F : Type) where
   ofInt : Int → F
   add : F → F → F
+  sub : F → F → F
   fmod : F → F → F
   floorDiv : F → F → Int
   isZero : F → Bool
@@ -146,6 +148,7 @@ All five operations are exact on such numbers whenever the literals are multiple
 def fixOps (S : Int) : FloatOps Int where
   ofInt i := i * S
   add a b := a + b
+  sub a b := a - b
   fmod a b := Int.fmod a b
   floorDiv a b := Int.fdiv a b
   isZero a := decide (a = 0)
